@@ -239,13 +239,15 @@ Section Algorithms.
 
   Definition unlink_one (level n : nat) (s : hnsw) (e : edge) : hnsw :=
     prune (remove_edge s (fst e) level n) (fst e) (mmax_at level) level.
-  Fixpoint unlink_levels (s : hnsw) (n : nat) (level cnt : nat) : hnsw :=
+  (* [uord level] = the order in which this Remove call's `range` over the removed vertex's level-[level] edge map
+     visits the neighbours (map iteration order: an oracle of the call, like [choice]) *)
+  Fixpoint unlink_levels (uord : nat -> list edge -> list edge) (s : hnsw) (n : nat) (level cnt : nat) : hnsw :=
     match cnt with
     | O => s
-    | S k => unlink_levels (fold_left (unlink_one level n) (ord (edges_at (vget s n) level)) s) n (level - 1) k
+    | S k => unlink_levels uord (fold_left (unlink_one level n) (uord level (edges_at (vget s n) level)) s) n (level - 1) k
     end.
 
-  Definition remove (s : hnsw) (id : N) (choice : option nat) : hnsw * status :=
+  Definition remove (s : hnsw) (id : N) (choice : option nat) (uord : nat -> list edge -> list edge) : hnsw * status :=
     match remove_vertex s id with
     | None => (s, SNotFound)
     | Some (s1, n) =>
@@ -260,7 +262,7 @@ Section Algorithms.
                       else s1
           | None => s1
           end in
-        (unlink_levels s2 n (vlevel vx) (S (vlevel vx)), SOk)
+        (unlink_levels uord s2 n (vlevel vx) (S (vlevel vx)), SOk)
     end.
 
   (* Search(query, k): ids with their metadata and score, ascending *)
